@@ -499,4 +499,66 @@ theorem C16_old_floordiv_small :
     smallInts.all (fun x => smallInts.all fun y => y == 0 || intFloorDiv x y == Int.fdiv x y) = true := by
   decide +kernel
 
+/-! ### One whole program, all operands
+
+The theorems above are about the operator layer and the integer operators; this one goes through both interpreters
+from the statement down to the rendered globals (assignment, the chain, the int literals, scope, rendering). -/
+
+/-- an int literal the parser accepts (fewer than 19 characters) -/
+def litOK (n : Int) : Prop := -100000000000000000 < n ∧ n < 1000000000000000000
+
+theorem eval_arith (opt : Bool) (f sc : Nat) (pos : Bool) (op : BinOp) (x y : Int) (hx : litOK x) (hy : litOK y)
+    (hop : op = .add ∨ op = .sub ∨ op = .mul ∨ op = .fdiv ∨ op = .mod) :
+    evalExpr F opt (f + 2) sc pos (.chain none (.int x) [(op, none, .int y)]) = intOp F op x (.int y) := by
+  unfold litOK at hx hy
+  have hx1 : ¬ (x ≥ 1000000000000000000 ∨ x ≤ -100000000000000000) := by omega
+  have hy1 : ¬ (y ≥ 1000000000000000000 ∨ y ≤ -100000000000000000) := by omega
+  rcases hop with rfl | rfl | rfl | rfl | rfl <;>
+    simp [evalExpr, hx1, hy1, flatten, interpretOps, interpretOp, BinOp.lazy, binOp]
+
+theorem prog_arith (op : BinOp) (x y : Int) (hx : litOK x) (hy : litOK y)
+    (hop : op = .add ∨ op = .sub ∨ op = .mul ∨ op = .fdiv ∨ op = .mod)
+    (hr : inRange (pyArith op x y)) (hz : (op = .fdiv ∨ op = .mod) → y ≠ 0) :
+    runProgram F false 50 [.assign "a" (.chain none (.int x) [(op, none, .int y)])] = .ok [("a", .int (pyArith op x y))] := by
+  have hpure : intOp F op x (.int y) = pure (.int (pyArith op x y)) := by
+    funext st; exact (C16_intop_agrees op x y st hop hr hz).1
+  simp only [runProgram, execStmts, execStmt, eval_arith false 46 _ _ op x y hx hy hop, hpure]
+  rfl
+
+theorem py_eval_arith (f fr : Nat) (op : BinOp) (x y : Int)
+    (hop : op = .add ∨ op = .sub ∨ op = .mul ∨ op = .fdiv ∨ op = .mod) :
+    Py.evalExpr (f + 2) fr (.chain none (.int x) [(op, none, .int y)]) = Py.binOp op (.int x) (.int y) := by
+  rcases hop with rfl | rfl | rfl | rfl | rfl <;>
+    simp [Py.evalExpr, pyGroup, climb, operandTree, evalTree, BinOp.lazy, pyPrecBin]
+
+theorem py_prog_arith (op : BinOp) (x y : Int)
+    (hop : op = .add ∨ op = .sub ∨ op = .mul ∨ op = .fdiv ∨ op = .mod)
+    (hr : inRange (pyArith op x y)) (hz : (op = .fdiv ∨ op = .mod) → y ≠ 0) :
+    Py.runProgram 50 [.assign "a" (.chain none (.int x) [(op, none, .int y)])] = .ok [("a", .int (pyArith op x y))] := by
+  have hpure : Py.binOp op (.int x) (.int y) = pure (.int (pyArith op x y)) := by
+    rcases hop with rfl | rfl | rfl | rfl | rfl
+    · simp [Py.binOp, Py.asInt, pyArith]
+    · simp [Py.binOp, Py.asInt, pyArith]
+    · simp [Py.binOp, Py.asInt, pyArith]
+    · have hy : y ≠ 0 := hz (Or.inl rfl)
+      simp [Py.binOp, Py.asInt, pyArith, hy]
+    · have hy : y ≠ 0 := hz (Or.inr rfl)
+      simp [Py.binOp, Py.asInt, pyArith, hy]
+  simp only [Py.runProgram, Py.execStmts, Py.execStmt, py_eval_arith 46 _ op x y hop, hpure]
+  rfl
+
+/-- **C16 at program level for one arithmetic assignment**: for every operator `+ - * // %` and all int literals the
+    parser accepts, whose result fits 64 bits (non-zero divisor for `//`, `%`): both evaluators run `a = x op y` and
+    render the same globals. -/
+theorem C16_program_arith (op : BinOp) (x y : Int) (hx : litOK x) (hy : litOK y)
+    (hop : op = .add ∨ op = .sub ∨ op = .mul ∨ op = .fdiv ∨ op = .mod)
+    (hr : inRange (pyArith op x y)) (hz : (op = .fdiv ∨ op = .mod) → y ≠ 0) :
+    disagree false 50 [.assign "a" (.chain none (.int x) [(op, none, .int y)])] = false ∧
+    bothRun F false 50 [.assign "a" (.chain none (.int x) [(op, none, .int y)])] = true := by
+  simp [disagree, disagreeF, bothRun, prog_arith op x y hx hy hop hr hz, py_prog_arith op x y hop hr hz]
+  simp [BEq.beq, RVal.beq]
+
+-- the hypotheses are met by the operands of the two old witnesses
+example : litOK (-7) ∧ litOK 3 ∧ litOK 9007199254740993 ∧ litOK 1 := by unfold litOK; decide
+
 end PlzVerif.Props.C16
